@@ -9,6 +9,7 @@ COQ_IMPORTS = ["From HTA.model Require Import C04_Model."]
 SOURCES = {"hta/analyzers/breakdown_analysis.py": ["_get_idle_time_for_kernels", "get_temporal_breakdown"],
            "hta/utils/utils.py": ["merge_kernel_intervals", "get_kernel_type", "is_comm_kernel", "is_memory_kernel", "is_compute_kernel"]}
 TRANSLATE = [translate.gen_kernel_rules]
+INPUT_CONTRACT = True        # the loaded frame is re-checked against the file (framework.input_contract)
 N_CASES = {"quick": 400, "thorough": 6000}
 RULE = ("generated file sets, mostly profile free_overlap (device intervals anywhere on a tiny time domain: identical, nested, touching, "
         "zero-length, equal starts, several streams, names on regex boundaries), 1-3 ranks; non-trivial = some rank has two device intervals that "
@@ -19,7 +20,7 @@ ASSUMPTIONS = ["durs_nonneg: durations are non-negative", "each rank has at leas
 
 def gen_cases(seed, tier, n):
     out = []
-    profs = ["free_overlap", "free_overlap", "free_overlap", "fifo_tiny", "default"]
+    profs = ["free_overlap", "free_overlap", "free_overlap_s0", "fifo_tiny", "default", "free_overlap"]
     for i in range(n):
         c = tracegen.gen_case(seed, i, tracegen.PROFILES[profs[i % len(profs)]])
         c["params"] = {}
